@@ -429,7 +429,7 @@ def native_replay(prop, unit, failure, cfg, rundir):
     shutil.rmtree(odir, ignore_errors=True)
     if rc != 0:
         return None, "replay driver did not compile: " + out[-600:]
-    args = [rp.get("mode", unit["id"])]
+    args = [rp.get("mode", unit["id"])] + list(rp.get("fixed_args", []))
     inputs = failure.get("inputs", {})
     for name in rp.get("args", []):
         if name in inputs:
